@@ -134,6 +134,41 @@ func buildDoc(r *rand.Rand, spec docSpec) (*model.Document, *genInfo) {
 			k := r.Intn(100)
 			y := float64(700 - ei*60)
 			bbox := model.BBox{X: 72, Y: y, Width: 400, Height: 40}
+			if !spec.NoHeadings && spec.Flavour != "likepara" && r.Intn(25) == 0 {
+				// a motif around the edges of the size rules: a paragraph larger than a
+				// chunk may be, a paragraph smaller than a chunk should be, a minor heading,
+				// and a paragraph that nearly fills a chunk (sizes relative to a maximum of
+				// 1000 or 2000 bytes, the two the presets use)
+				max := []int{1000, 2000}[r.Intn(2)]
+				level := lastLevel + 1
+				if level < 4 {
+					level = 4 + r.Intn(3)
+				}
+				if level > 6 {
+					level = 6
+				}
+				addPara := func(text string) {
+					page.AddElement(&model.Paragraph{Text: text, BBox: bbox, FontSize: 11})
+					if lay != nil {
+						lay.Paragraphs = append(lay.Paragraphs, model.ParagraphInfo{Index: len(lay.Paragraphs), Text: text, BBox: bbox, FontSize: 11})
+					}
+					info.Kinds["paragraph"]++
+				}
+				addPara(g.prose(max*12/10 + r.Intn(max)))
+				addPara(g.prose(15 + r.Intn(75)))
+				text := g.title()
+				page.AddElement(&model.Heading{Text: text, Level: level, BBox: bbox, FontSize: 13})
+				if lay != nil {
+					lay.Headings = append(lay.Headings, model.HeadingInfo{Level: level, Text: text, BBox: bbox, FontSize: 13, Confidence: 0.9})
+				}
+				info.Headings++
+				info.Levels[level] = true
+				info.Kinds["heading"]++
+				lastLevel = level
+				addPara(g.prose(max*6/10 + r.Intn(max*35/100)))
+				info.Features["motif:oversized,small,minor-heading,near-full"] = true
+				continue
+			}
 			switch {
 			case k < 28 && !spec.NoHeadings: // heading
 				var level int
